@@ -263,6 +263,66 @@ REGRESSIONS = {
 }
 
 
+def gen_hist(rng, g, thorough):
+    """ONE paths object per storage over a history of updates (each with its own sample set) and reloads"""
+    tree, npri = g.tree()
+
+    def some_rows():
+        rows = gen_rows(rng, npri, thorough)
+        return rows[:rng.choice([5, 9, 13])] if len(rows) > 13 and not thorough else rows[:40]
+    stages, modes = [some_rows()], ["first"]
+    for _ in range(rng.choice([1, 1, 2, 2, 3])):
+        prev = stages[-1]
+        mode = rng.choice(["extend", "extend", "extend", "fresh", "fresh", "reorder", "shrink", "revalue", "relike"])
+        if mode in ("reorder", "shrink") and len(prev) < 2:
+            mode = "extend"
+        if mode == "extend":                 # the fit carried on: the earlier samples plus new ones
+            new = prev + some_rows()[:rng.choice([1, 2, 3, 8])]
+        elif mode == "fresh":                # other count, other values
+            new = some_rows()
+        elif mode == "reorder":              # the same samples in another order
+            new = list(prev)
+            while new == prev:
+                rng.shuffle(new)
+                if all(x == prev[0] for x in prev):
+                    new = prev + some_rows()[:1]
+        elif mode == "shrink":
+            new = [dict(x) for x in prev[:rng.randint(1, len(prev) - 1)]]
+            if len(new) == 1:
+                new[0]["w"] = hx(1.0)
+        elif mode == "revalue":              # same count, likelihoods and weights; other parameter values
+            new = [{**x, "p": [hx(rand_float(rng, allow_inf=True) or 1.5) for _ in x["p"]]} for x in prev]
+        else:                                # same parameter values; another sample is the best one
+            new = [{**x, "ll": hx(-abs(rng.gauss(0, 50)))} for x in prev]
+        stages.append(new)
+        modes.append(mode)
+    ops = [{"op": "save", "stage": 0}]
+    for k in range(1, len(stages)):
+        if rng.random() < 0.85:
+            ops += [{"op": "load"} for _ in range(rng.choice([1, 1, 2]))]
+        ops.append({"op": "save", "stage": k})
+    ops += [{"op": "load"} for _ in range(rng.choice([1, 1, 2]))]
+    if rng.random() < 0.25:                  # an earlier sample set persisted again (a fit started over), then read
+        ops += [{"op": "save", "stage": rng.randrange(len(stages) - 1)}, {"op": "load"}]
+    for op in ops:
+        if op["op"] == "load":
+            op["fresh"] = rng.random() < 0.65
+            op["expire"] = rng.random() < 0.5
+        else:
+            op["commit_before"] = rng.random() < 0.3
+    ops[-1]["fresh"] = True
+    if not any(o["op"] == "load" for o in ops[1:-1]):
+        ops.insert(1, {"op": "load", "fresh": False, "expire": False})   # always: save, load, save, ..., load
+    c = {"kind": "hist", "tree": tree, "npri": npri, "kinds": [rng.choice("ugl") for _ in range(rng.randint(1, 3))],
+         "stages": stages, "modes": modes, "ops": ops}
+    if rng.random() < 0.3:
+        c["cls"] = "nest"
+        c["logz"] = hx(rand_float(rng))
+    if rng.random() < 0.3:
+        c["numpy"] = rng.choice(["scalar", "array"])
+    return c
+
+
 def gen_cases(ctx):
     rng = ctx.rng
     thorough = ctx.tier == "thorough"
@@ -647,6 +707,115 @@ def oracle_jsonhist(c, r):
     if r["obs"] != exp:
         return [("db_json", "values", "get_json / rows per name %s, expected (last save wins, one row per name) %s" % (r["obs"], exp))]
     return []
+
+
+def hist_raw_cells(raw_rows):
+    """independent reader's rows (parameters, ll, lp, log_posterior, weight) -> (parameters, ll, lp, weight)"""
+    return [row[:-2] + [row[-1]] for row in raw_rows]
+
+
+def oracle_hist(c, r):
+    """whatever was saved or loaded before through the same paths object: every load returns the sample set persisted LAST
+    (value per path, ll, lp, weight, order, count, info), the summary persisted last, and agrees with fresh readers"""
+    fails = []
+    views, cells, infos, sums = r["stage_views"], r["stage_cells"], r["stage_info"], r["stage_summaries"]
+    for i, (exp_rows, v) in enumerate(zip(c["stages"], views)):
+        if ok(v, "pl") != [[hx(unhex(x)) for x in row["p"]] for row in exp_rows]:
+            return [("memory", "values", "Sample.from_lists does not hold the rows of stage %d" % i)]
+    for store in ("dir", "db"):
+        nload = 0
+        for ev in r[store]:
+            if ev["op"] == "save":
+                for nm in ("summary_save", "save"):
+                    if "exc" in ev.get(nm, {}):
+                        fails.append((store + "_hist", exc_part(ev, nm), "%s: %s of stage %d raised %s" % (store, nm, ev["stage"], exc_of(ev, nm))))
+                continue
+            nload += 1
+            k, ks = ev["after"], ev["after_summary"]
+            where = "%s storage, reload #%d%s (last persisted: stage %d of %d [%s], %d samples)" % (
+                store, nload, " by an aggregator object made before the later updates" if ev.get("final") else "", k, len(views),
+                c["modes"][k], len(c["stages"][k]))
+
+            def stale(check):
+                """which earlier stage the loaded thing equals, if any"""
+                for j in range(len(views)):
+                    if j != k and check(j):
+                        return " -- it is the sample set of stage %d [%s], persisted EARLIER through the same object" % (j, c["modes"][j])
+                return ""
+            for nm, reader in (("paths", "the paths object used all along"), ("fresh", "a fresh paths object"),
+                               ("agg", "the aggregator / Fit row")):
+                if nm not in ev:
+                    continue
+                m = compare_view(views[k], ev[nm], "%s: samples loaded through %s" % (where, reader))
+                if m:
+                    fails.append((store + "_hist:" + nm, m[0], m[1][:700] + stale(lambda j: compare_view(views[j], ev[nm], "") is None)))
+            for nm, reader in (("table", "load_samples() of the paths object used all along"),
+                               ("fresh_table", "load_samples() of a fresh paths object")):
+                if nm not in ev:
+                    continue
+                if "ok" not in ev[nm]:
+                    fails.append((store + "_hist:" + nm, exc_part(ev, nm), "%s: %s raised %s" % (where, reader, exc_of(ev, nm))))
+                elif ev[nm]["ok"] != cells[k]:
+                    fails.append((store + "_hist:" + nm, "values", "%s: %s returns %d samples %s..., persisted %d samples %s...%s" % (
+                        where, reader, len(ev[nm]["ok"]), ev[nm]["ok"][:1], len(cells[k]), cells[k][:1],
+                        stale(lambda j: ev[nm]["ok"] == cells[j]))))
+            for nm in ("info", "agg_info"):
+                if nm in ev and ev[nm].get("ok") != infos[k]:
+                    fails.append((store + "_hist:" + nm, exc_part(ev, nm) or "info", "%s: samples_info (%s) is %s, persisted %s" % (
+                        where, nm, ev[nm], infos[k])))
+            if "raw" in ev and ("ok" not in ev["raw"] or hist_raw_cells(ev["raw"]["ok"]) != cells[k]):
+                fails.append((store + "_hist:file", "file", "%s: samples.csv does not hold the sample set persisted last" % where))
+            if ks is not None and sums[ks] is not None:
+                for nm, route in (("summary", "summary"), ("fresh_summary", "summary"),
+                                  ("agg_summary", "summary_agg" if store == "dir" else "fit_summary")):
+                    if nm in ev:
+                        for part, m in compare_summary(sums[ks], ev[nm], "%s: %s (summary persisted last: stage %d)" % (where, nm, ks)):
+                            fails.append((route, part, m[:700]))
+                # the summary file and the samples persisted in the same update describe the same best fit
+                if ks == k and "paths" in ev and "summary" in ev and "load" not in ev["paths"] and "load" not in ev["summary"] \
+                        and exc_of(views[k], "best") is None and by_col(ev["paths"], "best") != by_col(ev["summary"], "vmax") \
+                        and by_col(views[k], "best") == by_col(sums[k], "vmax"):
+                    fails.append((store + "_hist:paths", "values", "%s: reloaded samples and reloaded summary disagree on the best fit: %s vs %s" % (
+                        where, by_col(ev["paths"], "best"), by_col(ev["summary"], "vmax"))))
+    return fails
+
+
+def coq_hist(c, r):
+    """per storage: the history as store operations on named tables of binary64 cells + what every load returned"""
+    out = []
+    cells, infos, sums = r["stage_cells"], r["stage_info"], r["stage_summaries"]
+
+    def tab(t):
+        return clist([cfl(row) for row in t])
+
+    def obs_of(x, f=lambda v: v):
+        if isinstance(x, dict) and "ok" in x and x["ok"] is not None:
+            return "(Some %s)" % tab(f(x["ok"]))
+        return "None"
+    for store in ("dir", "db"):
+        h, obs = [], []
+        for ev in r[store]:
+            if ev["op"] == "save":
+                k = ev["stage"]
+                if "ok" in ev.get("summary_save", {}) and sums[k] is not None and ok(sums[k], "vmax") is not None:
+                    h.append("SSave %s %s" % (cstr("samples_summary"), tab([ok(sums[k], "vmax")])))
+                if "ok" in ev.get("save", {}):
+                    h.append("SSave %s %s" % (cstr("samples"), tab(cells[k])))
+                    h.append("SSave %s %s" % (cstr("samples_info"), tab(infos[k])))
+                continue
+            if ev.get("final"):
+                continue
+            for nm, key in (("table", "samples"), ("info", "samples_info"), ("fresh_table", "samples"), ("agg_info", "samples_info")):
+                if nm in ev:
+                    h.append("SLoad %s" % cstr(key))
+                    obs.append("(%s, %s)" % (cstr(key), obs_of(ev[nm])))
+            for nm in ("summary", "fresh_summary"):
+                ks = ev["after_summary"]
+                if nm in ev and ks is not None and sums[ks] is not None and ok(sums[ks], "vmax") is not None:
+                    h.append("SLoad %s" % cstr("samples_summary"))
+                    obs.append("(%s, %s)" % (cstr("samples_summary"), obs_of(ev[nm].get("vmax", {}), lambda v: [v])))
+        out.append((store + "_hist", "CStore %s %s" % (clist(["(%s)" % x for x in h]), clist(obs))))
+    return out
 
 
 def oracle_fit(c, r):
@@ -1052,6 +1221,8 @@ def coq_cases(c, r):
         obs = clist(["(%s, %s, %s)" % (cstr(n), "None" if tok is None else ("(Some %s)" % cnat(tok) if 0 <= tok < 5000 else "(Some 4999%nat)"),
                                           cnat(cnt)) for n, tok, cnt in r["obs"]])
         return [("db_json", "CJsonHist %s %s" % (h, obs))]
+    if c["kind"] == "hist":
+        return coq_hist(c, r)
     if c["kind"] != "samples":
         return out
     t = "(%s)" % cnode(c["tree"])
@@ -1133,6 +1304,17 @@ def nontrivial(c):
         return len(names) > len(set(names))          # some name saved more than once
     if c["kind"] == "quant":
         return len(c["xs"]) >= 3 and len(set(c["ws"])) >= 2
+    if c["kind"] == "hist":
+        # a reload between two saves of DIFFERENT sample sets, and a reload after the later one
+        last, loaded_since, good = None, False, False
+        for op in c["ops"]:
+            if op["op"] == "load":
+                loaded_since = last is not None
+            else:
+                if last is not None and loaded_since and c["stages"][op["stage"]] != c["stages"][last]:
+                    good = True
+                last, loaded_since = op["stage"], False
+        return good and c["ops"][-1]["op"] == "load" and c["npri"] >= 1
     labels = shape_labels(c)
     n = c["npri"]
     rows = c.get("rows", [1, 2])
@@ -1151,7 +1333,11 @@ def run(ctx):
                 "random bit patterns; handed over as Python floats, numpy scalars or numpy arrays) persisted through csv+info, "
                 "csv saved again after a reload, summary json, aggregator SearchOutput, database rows (all / minimised), database "
                 "summary, latent samples (csv, aggregator, database), a directory scraped into a database (Aggregator.from_directory + "
-                "Scraper), plus re-saved database fits and real Drawer fits run twice; non-trivial = at least 2 parameters and 2 "
+                "Scraper), plus re-saved database fits and real Drawer fits run twice, plus histories on ONE paths object per storage "
+                "(DirectoryPaths / DatabasePaths: 2-4 updates, each persisting its own sample set -- extended, fresh, reordered, shrunk, "
+                "re-valued, other best sample, an earlier set again -- with reloads through the same object between and after them, "
+                "next to a fresh paths object, a fresh aggregator SearchOutput / the Fit row and an aggregator object made before the "
+                "later updates; non-trivial history = a reload between two saves of different sample sets and a reload after); non-trivial = at least 2 parameters and 2 "
                 "samples and one of {nesting depth >= 2, shared prior, tuple prior, mixed path depth}; distinct = distinct abstract case; "
                 "plus summary statistics: direct quantile(x, q, weights) calls (exactly representable inputs with ties / zero weights / "
                 "equal weights / q in {0, 1, 1/2, 1/1024 grid, outside [0,1]} and arbitrary binary64 inputs, 0-200 samples) and SamplesPDF "
@@ -1193,6 +1379,10 @@ def run(ctx):
     import random as _random
     rng2 = _random.Random(ctx.rng.getrandbits(64))
     cases += gen_stat_cases(rng2, ctx.tier == "thorough", Gen(rng2, ctx.tier == "thorough"))
+    # histories on one paths object: own stream again
+    rng3 = _random.Random(ctx.rng.getrandbits(64))
+    g3 = Gen(rng3, ctx.tier == "thorough")
+    cases += [gen_hist(rng3, g3, ctx.tier == "thorough") for _ in range(20 if ctx.tier != "thorough" else 140)]
     if ctx.replay:
         rp = json.load(open(ctx.replay))
         if rp.get("case"):
@@ -1210,9 +1400,10 @@ def run(ctx):
         c["idx"] = i
     fit_csv = [c for c in cases if c["kind"] == "fit" and c["csv"]]
     fit_nocsv = [c for c in cases if c["kind"] == "fit" and not c["csv"]]
-    rest = [c for c in cases if c["kind"] not in ("fit", "quant", "pdf")]
+    rest = [c for c in cases if c["kind"] not in ("fit", "quant", "pdf", "hist")]
+    hist_cases = [c for c in cases if c["kind"] == "hist"]
     stat_cases = [c for c in cases if c["kind"] in ("quant", "pdf")]
-    payloads = [{"cases": ch} for ch in chunks(rest, 14)] + [{"cases": ch} for ch in chunks(stat_cases, 2) if ch] + [{"cases": ch} for ch in chunks(fit_csv, 2 if len(fit_csv) < 12 else 6) if ch]
+    payloads = [{"cases": ch} for ch in chunks(rest, 14)] + [{"cases": ch} for ch in chunks(hist_cases, 5) if ch] + [{"cases": ch} for ch in chunks(stat_cases, 2) if ch] + [{"cases": ch} for ch in chunks(fit_csv, 2 if len(fit_csv) < 12 else 6) if ch]
     if fit_nocsv:
         payloads.append({"cases": fit_nocsv, "samples_to_csv": False})
     outs = common.run_impl_parallel("c09_impl", payloads, timeout=1500)
@@ -1234,13 +1425,18 @@ def run(ctx):
             ctx.hist("shape", lb)
         ctx.hist("parameters", c.get("npri", 0))
         ctx.hist("samples", len(c.get("rows", [])))
+        if c["kind"] == "hist":
+            ctx.hist("history", "%d stages" % len(c["stages"]))
+            ctx.hist("history", "%d reloads" % sum(1 for o in c["ops"] if o["op"] == "load"))
+            for md in c["modes"][1:]:
+                ctx.hist("history-update", md)
         ctx.oracle["cases"] += 1
         if "exc" in r:
             ctx.oracle["failures"] += 1
             ctx.failure("oracle", "driver raised %s: %s" % (r["exc"], r.get("msg")), c, classes=[], impl=r)
             continue
         r = r["ok"]
-        fails = {"samples": oracle_samples, "dbseq": oracle_dbseq, "fit": oracle_fit, "jsonhist": oracle_jsonhist,
+        fails = {"samples": oracle_samples, "dbseq": oracle_dbseq, "fit": oracle_fit, "jsonhist": oracle_jsonhist, "hist": oracle_hist,
                  "quant": oracle_quant, "pdf": oracle_pdf}[c["kind"]](c, r)
         if c.get("regression"):
             ctx.obligation("regression:" + c["regression"], "regression", not fails,
@@ -1309,7 +1505,10 @@ MANIFEST = {
             "and every sample list the reloaded samples give the same value per parameter, log-likelihood, log-prior and weight in "
             "order -- database rows unconditionally (all samples, the minimised list, a scraped directory), csv and summary for the "
             "code as it is now without any guard on parameter names (the earlier failures are kept as *_legacy_refuted statements and "
-            "regression obligations); named json rows of a database fit: the last save wins for every save history; value per path is independent of the prior numbering of a re-created model; hence the same "
+            "regression obligations); named json rows of a database fit: the last save wins for every save history; one store object (DirectoryPaths / "
+            "DatabasePaths / Fit row) over ANY history of saves and loads: every load returns the last save before it, equals a fresh "
+            "reader, and loads never change the store (C09_store_*), tied to the code by histories of updates and reloads run through "
+            "one paths object per storage (samples table, samples_info, summary) and compared load by load; value per path is independent of the prior numbering of a re-created model; hence the same "
             "best-fit vector; plus vm_compute correspondence of keys / lookups / exceptions with the running code on generated model "
             "shapes x extreme floats (Python and numpy) over csv, re-saved csv, aggregator, summary, database, scrape and latent "
             "routes and a direct property oracle incl. real fits run twice; summary statistics: an executable model of quantile() "
